@@ -285,6 +285,8 @@ class Inliner:
             return self._memo[fn.id]
         if not fn.has_cfg or depth > MAX_DEPTH:
             return fn
+        if fn.file.startswith("/verif/"):
+            return fn  # witness / fixture units are written against the public API: calls stay calls
         # quick scan
         found = False
         for bid, i, e in fn.roots():
